@@ -268,3 +268,32 @@ def witness_instance(ci, **attrs):
     from ..miniinterp import Obj
 
     return Obj(_ci=ci, **attrs)
+
+
+
+def service_status_witnesses(ctx):
+    """get_service_status folded on witness codes: every code of the table gives the table's text, an unknown code gives a text
+    that contains the code in hex (2 digits, lower or upper case).  [(ok, key role, expected, got)]"""
+    import ast as _ast
+
+    from ..miniinterp import run_function
+
+    gss = ctx.model.func("pycomm3.packets.util:get_service_status")
+    table = ctx.folder.module_value(gss.module.name, "SERVICE_STATUS")
+    out = []
+    if not isinstance(table, dict) or not table:
+        return gss, [(None, "table", "SERVICE_STATUS is a constant table", repr(type(table)))]
+    p = gss.node.args.args[0].arg
+    known = sorted(k for k in table if isinstance(k, int))
+    for code in [known[0], known[len(known) // 2], known[-1], 0x06]:
+        if code not in table:
+            continue
+        kind, res = run_function(ctx, gss.module, gss.node, {p: code}, deep=False)
+        out.append(((None if kind == "unknown" else kind == "return" and res == table[code]), f"known:{code:#04x}", table[code], f"{kind} {res!r}"))
+    for code in (0xEE, 0x0B if 0x0B not in table else 0xAB):
+        if code in table:
+            continue
+        kind, res = run_function(ctx, gss.module, gss.node, {p: code}, deep=False)
+        ok = None if kind == "unknown" else (kind == "return" and isinstance(res, str) and bool(res) and f"{code:02x}" in res.lower())
+        out.append((ok, f"unknown:{code:#04x}", f"a text naming {code:#04x}", f"{kind} {res!r}"))
+    return gss, out
